@@ -33,6 +33,10 @@ CHECKS = {
    text="Exhaustive enumeration (about 20 000 cases, seconds) of item sizes x pre-existing file states x item-writer outcomes (ok, error after k bytes, cancellation before/after k bytes) x os-level faults (open, truncate, write short/ENOSPC/EIO after k bytes, fsync, close) for both item kinds against the real FileSystemDirectory over a hooked os package; the oracle compares file bytes, requires a successful Sync after the last write and before success, and requires no residue after failure. The case space of the property's quantifier is finite and enumerated completely.",
    note="Trusted: the os overlay hooks (pass-through unless a fault is armed); boundary set for k instead of every k; single caller.",
    technique="I/O fault injection at the os seam (go build -overlay hook), exhaustive enumeration of fault points against the real directory implementation"),
+ "C14": dict(level="fault_enumeration", ref="3/C14",
+   text="Base runs sampled by seed; each is re-executed from its own tape with a fault placed on an operation of its recorded directory trace (every operation x placement {before any byte, after a partial write, after the full write, load/remove/list/lock/setup error}; quick tier a seeded subset per base run), plus sticky spans and pairs. Per faulted run: no panic, deterministic no-hang verdict, Batch errors only when a fault fired, AsyncError fired for failed persister/merger steps, monitor and held readers equal the abstract index of applied batches, bounded completion once faults stop, reopened index equals the abstract index, and crash images during and after the fault pass the C03 oracle.",
+   note="Trusted: determinism of the prefix up to the faulted operation (self-test); faults are injected at the Directory seam and at the os seam only, never on the harness's own probes; 'surfaced' is checked as 'AsyncError fired at least once when a background step failed'.",
+   technique="deterministic simulation: replay of a recorded run with enumerated single/paired/sticky I/O fault placements, containment + bounded-liveness + crash oracles"),
  "C04": dict(level="exploration", ref="3/C04",
    text="Seeded search over simulated runs in which client actors hold several Readers of different ages open while batches, merges, persist swaps, unlinks and Close are scheduled between their reads; the first full read (count, match-all, stored fields, id lookup, sorted top-N over document values, aggregations, dictionary scan, phrase/boolean/conjunction/disjunction/range/prefix queries) is the baseline (checked against the abstract index at acquisition) and every later read must be identical; a fault of the process is reported as the violation. Sampling of schedules, not proof.",
    note="Trusted: gate wrappers delegate; regions between gates are atomic w.r.t. other gated actors; reads cover the listed query kinds only.",
